@@ -74,6 +74,26 @@ Theorem C04_pid_exists_false : forall valid h n,
 Proof. exact pid_exists_false_h. Qed.
 Print Assumptions C04_pid_exists_false.
 
+(* pid_exists(n) when opening or reading /proc/<n>/status fails with OSError (whatever errno: ENOENT, ESRCH,
+   EACCES, EPERM, EIO ...) or the file has no Tgid line: still "n is a listed PID" -- False for a thread id whose
+   status file is unreadable -- and never an exception; in every history, for every integer *)
+Theorem C04_pid_exists_fault : forall valid h n f,
+  let s := final valid h in
+  (n = 0 -> tbl s <> []) ->
+  snd (step valid s (PidExistsF n f)) = OBool (zmem n (listing (tbl s))).
+Proof. exact pid_exists_fault_h. Qed.
+Print Assumptions C04_pid_exists_fault.
+
+(* the same at the text level: kill(pid, 0) succeeded or was denied, the status file cannot be opened / read
+   (None) or consists of lines none of which begins with "Tgid:"  =>  pid in pids() over the root listing (the platform pids(): no sorting, no _LOWEST_PID) *)
+Theorem C04_pid_exists_text_fault : forall pid k status d,
+  forallb wf_dirent d = true ->
+  k = KOk \/ k = KEperm ->
+  status = None \/ (exists pre, forallb wf_preline pre = true /\ status = Some (k_lines pre)) ->
+  pid_exists_linux pid k status (k_listdir d) = Val (zmem pid (spec_dir_pids d)).
+Proof. exact pid_exists_linux_fault. Qed.
+Print Assumptions C04_pid_exists_text_fault.
+
 (* ---- generators ---- *)
 
 (* the next() that yields, exactly: the PID's cached object iff the PID was cached when the body was
